@@ -110,7 +110,7 @@ def emit_setup(E):
                                                                                'stream_id': mk_int(STREAM(term))})
 
     def contains_after_head(E_, f, a, k):
-        # contract of QueuePeekable.contains_after_head(predicate) (verified separately, bounded: c05.contains_after_head):
+        # contract of QueuePeekable.contains_after_head(predicate) (proved separately for every queue content: c05.contains_after_head; bounded instances kept as a cross-check):
         # True iff some item strictly behind the head satisfies the predicate
         qq, pred = a[0], a[1]
         ss = qq.attrs['_sym']
